@@ -47,7 +47,7 @@ case_st = st.fixed_dictionaries({
     "lo": st.sampled_from([-3.5, 0.0, 1.0, 2.5e-3, 1.0e4, -1.0e-2]),
     "span": st.sampled_from([1.0, 7.0, 1e-3, 3.3e5]),
     "p_outside_near": st.sampled_from([0.0, 0.1, 0.3, 0.3]),
-    "p_edge": st.sampled_from([0.0, 0.0, 0.1]),
+    "p_edge": st.sampled_from([0.0, 0.0, 0.1, 0.2]),
     "p_special": st.sampled_from([0.0, 0.0, 0.05]),
     "one_bin": st.sampled_from([False, False, False, True]),
     "layers": st.lists(st.fixed_dictionaries({"op": st.sampled_from([None, "sum", "mean"]),
@@ -80,6 +80,13 @@ def _axis(rng, n, res, lo, span, log, p_out, p_edge, p_special, one_bin):
     f = np.where(edge, rng.choice([0.0, 1e-14, 1.0 - 1e-14], size=n), f)
     t = lo_t + (ib + f) * d
     x = 10.0 ** t if log else t
+    lower = 10.0 ** lo_t if log else lo_t
+    upper = 10.0 ** (lo_t + span_t) if log else lo_t + span_t
+    # points within a few ulp of the limits (floating-point boundary class)
+    ulp = rng.random_sample(n) < p_edge
+    choices = np.array([lower, np.nextafter(lower, np.inf), np.nextafter(upper, -np.inf),
+                        np.nextafter(np.nextafter(upper, -np.inf), -np.inf), upper, np.nextafter(lower, -np.inf)])
+    x = np.where(ulp, rng.choice(choices, size=n), x)
     sp = rng.random_sample(n) < p_special
     x = np.where(sp, rng.choice([np.nan, np.inf, -np.inf], size=n), x)
     lower = 10.0 ** lo_t if log else lo_t
